@@ -69,7 +69,7 @@ void ThreadPool::terminate()
     // wake up all worker threads and let them terminate.
     cv_jobs_.notify_all();
     // notify LoopUntilTerminate in case all threads are idle.
-    cv_finished_.notify_one();
+    cv_finished_.notify_all();
 }
 
 size_t ThreadPool::done() const
@@ -154,7 +154,7 @@ void ThreadPool::worker(size_t p)
 
             // relock mutex before signaling condition.
             lock.lock();
-            cv_finished_.notify_one();
+            cv_finished_.notify_all();
         }
     }
 }
